@@ -75,7 +75,7 @@ theorem push_within : ∀ (x : SVal) (b : B), Within (positions b) (push ext b x
         (fun s s' h => (pushStructOps_takeRest ext ops _ s' h).trans (SSkel.next s _))
     | map p mm v offs ks vs =>
       exact Within.bind (NoCtx.within _) fun _ _ => Within.bind (NoCtx.within _) fun _ _ =>
-        Within.bind (Within.mono map_sub_k (pushMapOps_within ops _ ks vs)) fun _ _ => Within.of_ok _
+        Within.bind (Within.mono map_sub_k (pushMapOps_within ops _ _ ks vs)) fun _ _ => Within.of_ok _
     | unknownVariant _ => exact NoCtx.within _
     | _ => exact NoCtx.within _
   | .unitVariant n i vn, b => by
@@ -200,18 +200,21 @@ theorem pushMapEntries_within : ∀ (es : SEntries) (offs : List Int) (ks vs : B
     have e1 := positions_of_takeRest (push_takeRest ext k ks ks' hk)
     have e2 := positions_of_takeRest (push_takeRest ext x vs vs' hv)
     exact e1 ▸ e2 ▸ pushMapEntries_within rest _ ks' vs'
-theorem pushMapOps_within : ∀ (ops : SMapOps) (offs : List Int) (ks vs : B),
-    Within (positions ks ++ positions vs) (pushMapOps ext offs ks vs ops)
-  | .nil, offs, ks, vs => by rw [pushMapOps]; exact Within.of_ok _
-  | .key k rest, offs, ks, vs => by
+theorem pushMapOps_within : ∀ (ops : SMapOps) (pd : Bool) (offs : List Int) (ks vs : B),
+    Within (positions ks ++ positions vs) (pushMapOps ext pd offs ks vs ops)
+  | .nil, pd, offs, ks, vs => by
+    rw [pushMapOps]; exact Within.ite _ (NoCtx.within _) (Within.of_ok _)
+  | .key k rest, pd, offs, ks, vs => by
     rw [pushMapOps]
+    refine Within.ite _ (NoCtx.within _) ?_
     refine Within.bind (NoCtx.within _) fun _ _ =>
       Within.bind (Within.mono (fun q hq => List.mem_append_left _ hq) (push_within k ks)) fun ks' hk => ?_
-    exact positions_of_takeRest (push_takeRest ext k ks ks' hk) ▸ pushMapOps_within rest _ ks' vs
-  | .value x rest, offs, ks, vs => by
+    exact positions_of_takeRest (push_takeRest ext k ks ks' hk) ▸ pushMapOps_within rest _ _ ks' vs
+  | .value x rest, pd, offs, ks, vs => by
     rw [pushMapOps]
+    refine Within.ite _ (NoCtx.within _) ?_
     refine Within.bind (Within.mono (fun q hq => List.mem_append_right _ hq) (push_within x vs)) fun vs' hv => ?_
-    exact positions_of_takeRest (push_takeRest ext x vs vs' hv) ▸ pushMapOps_within rest _ ks vs'
+    exact positions_of_takeRest (push_takeRest ext x vs vs' hv) ▸ pushMapOps_within rest _ _ ks vs'
 end
 
 end SaModel.Props.C18
